@@ -253,6 +253,14 @@ def _expr(n, params, site):
         if nm in params:
             return nm, False
         raise TieBroken(site, "reference to %s is outside the grammar" % nm)
+    if k == "MemberExpr" and isinstance(params, dict) and n.get("name") == "function_index_offset" \
+            and "inherit[mid].fio" in params:
+        base = _strip(n["inner"][0])
+        if base.get("kind") == "ArraySubscriptExpr":
+            ix = _strip(base["inner"][1])
+            if ix.get("kind") == "DeclRefExpr" and (ix.get("referencedDecl") or {}).get("name") == "mid":
+                return params["inherit[mid].fio"], False
+        raise TieBroken(site, "function_index_offset of something else than inherit[mid]")
     if k == "MemberExpr" and isinstance(params, dict):
         base = _strip(n["inner"][0])
         key = "%s->%s" % ((base.get("referencedDecl") or {}).get("name"), n.get("name"))
@@ -268,8 +276,10 @@ def _expr(n, params, site):
         tob = lambda t, isb: t if isb else "(%s != 0)" % t
         if op in ("&", "|", "^", ">>", "<<", "+", "-") and not ab and not bb:
             return "(%s %s %s)" % (a, {"&": "&&&", "|": "|||", "^": "^^^", ">>": ">>>", "<<": "<<<", "+": "+", "-": "-"}[op], b), False
-        if op in ("==", "!=") and not ab and not bb:
-            return "(%s %s %s)" % (a, op, b), True
+        if op in ("==", "!=", "<", ">", "<=", ">=") and not ab and not bb:
+            return "(%s %s %s)" % (a, {"==": "==", "!=": "!=", "<": "<", ">": ">", "<=": "≤", ">=": "≥"}[op], b), True
+        if op == "/" and not ab and not bb:
+            return "(%s / %s)" % (a, b), False
         if op in ("&&", "||"):
             return "(%s %s %s)" % (tob(a, ab), op, tob(b, bb)), True
     raise TieBroken(site, "expression node %s %s is outside the grammar" % (k, n.get("opcode", "")))
@@ -412,6 +422,97 @@ def gen_find_masks(bdir):
     return out
 
 
+def gen_find_func_entry_loop(bdir):
+    """the search loop of find_func_entry (lib/lpc/program.c) that rebuilds an omitted runtime entry from the inherit list:
+    loop condition, `mid`, and the if-chain of the body (comparisons, assignments to first / last, early exits)"""
+    site = "guard:find_func_entry-loop"
+    fn = _ast_of_function(bdir, "lib/lpc/program.c", "find_func_entry")
+    loops = [n for n in _walk(fn) if n.get("kind") == "WhileStmt"]
+    if len(loops) != 1:
+        raise TieBroken(site, "expected one while loop in find_func_entry, found %d" % len(loops))
+    cond_n, body = loops[0]["inner"][0], loops[0]["inner"][1]
+    env = {"first": "first", "last": "last", "index": "index", "inherit[mid].fio": "s"}
+    cond, cb = _expr(cond_n, env, site)
+    if not cb:
+        raise TieBroken(site, "loop condition is not a comparison")
+    stmts = body.get("inner", []) if body.get("kind") == "CompoundStmt" else [body]
+    mid = None
+    rest = []
+    for st in stmts:
+        if st.get("kind") == "DeclStmt":
+            for v in st.get("inner", []):
+                if v.get("kind") != "VarDecl" or not v.get("inner"):
+                    raise TieBroken(site, "declaration without initialiser in the loop")
+                t, b = _expr(v["inner"][-1], env, site)
+                if b:
+                    raise TieBroken(site, "truth value stored in a loop variable")
+                if v["name"] == "mid":
+                    mid = t
+                    env["mid"] = "mid"
+                else:
+                    env[v["name"]] = t          # e.g. `int start = prog->inherit[mid].function_index_offset;`
+        else:
+            rest.append(st)
+    if mid is None:
+        raise TieBroken(site, "`mid` is not declared in the loop")
+
+    def run(st, state):
+        """state = (first', last', break) as Lean texts; returns the Lean text of the resulting triple"""
+        k = st.get("kind")
+        if k == "CompoundStmt":
+            return seq(st.get("inner", []), state)
+        if k == "IfStmt":
+            c, isb = _expr(st["inner"][0], env, site)
+            c = c if isb else "(%s != 0)" % c
+            th = run(st["inner"][1], state)
+            el = run(st["inner"][2], state) if len(st["inner"]) > 2 else "(%s, %s, %s)" % state
+            return "(if %s then %s else %s)" % (c, th, el)
+        if k == "BinaryOperator" and st.get("opcode") == "=":
+            l = _strip(st["inner"][0])
+            nm = (l.get("referencedDecl") or {}).get("name")
+            v, b = _expr(st["inner"][1], env, site)
+            if b or nm not in ("first", "last"):
+                raise TieBroken(site, "assignment to %s in the loop is outside the grammar" % nm)
+            f, la, br = state
+            return "(%s, %s, %s)" % ((v, la, br) if nm == "first" else (f, v, br))
+        if k == "BreakStmt":
+            return "(%s, %s, true)" % state[:2]
+        raise TieBroken(site, "statement %s in the loop is outside the grammar" % k)
+
+    def seq(sts, state):
+        # straight-line sequences of assignments / break; an `if` must be the last statement of its sequence
+        for i, st in enumerate(sts):
+            r = run(st, state)
+            if st.get("kind") in ("IfStmt", "CompoundStmt"):
+                if i != len(sts) - 1:
+                    raise TieBroken(site, "statements after an if inside the loop body")
+                return r
+            m = re.match(r"^\((.*), (.*), (true|false)\)$", r)
+            # r is a plain triple: continue from it
+            depth, parts, cur = 0, [], ""
+            for ch in r[1:-1]:
+                if ch == "(":
+                    depth += 1
+                if ch == ")":
+                    depth -= 1
+                if ch == "," and depth == 0:
+                    parts.append(cur.strip())
+                    cur = ""
+                else:
+                    cur += ch
+            parts.append(cur.strip())
+            state = tuple(parts)
+        return "(%s, %s, %s)" % state
+
+    step = seq(rest, ("first", "last", "false"))
+    return ("/-- GENERATED from the clang AST of find_func_entry (lib/lpc/program.c): the condition of its search loop -/\n"
+            "def ffeCondGen (first last : Nat) : Bool := %s\n"
+            "/-- GENERATED: `int mid = ...` -/\n"
+            "def ffeMidGen (first last : Nat) : Nat := %s\n"
+            "/-- GENERATED: the body of the loop as (first', last', break); s = prog->inherit[mid].function_index_offset -/\n"
+            "def ffeStepGen (first last mid s index : Nat) : Nat × Nat × Bool := %s\n" % (cond, mid, step))
+
+
 def gen_compress_consts(bdir):
     """the literals of compress_function_tables / find_func_entry: the marker byte, the counter value at which the loop
     overflows, the counter value it continues with"""
@@ -464,7 +565,7 @@ class C07(Prop):
                 "NV.C07.name_masks_are_source", "NV.C07.cmp_marker_is_byte_max",
                 "NV.C07.permute_slot_entry", "NV.C07.permute_ft_mem", "NV.C07.permute_keeps_rest", "NV.C07.sortIdx_isPerm",
                 "NV.C07.resort_slot_entry", "NV.C07.inversePerm_getElem", "NV.C07.built_fio_sorted", "NV.C07.built_indices_in_range",
-                "NV.C07.cmp_literals_are_source", "NV.C07.resort_sorted", "NV.C07.sortIdx_pairwise",
+                "NV.C07.cmp_literals_are_source", "NV.C07.inhSearch_is_source", "NV.C07.resort_sorted", "NV.C07.sortIdx_pairwise",
                 "NV.C07.setupVariables_length", "NV.C07.setupVariables_get", "NV.C07.setupVariables_is_spec",
                 "NV.C07.every_frame_sees_its_own_block", "NV.C07.calleeOf_entered", "NV.C07.applyLow_call_is_find",
                 "NV.C07.applyLow_invId", "NV.C07.findFunction_reuse", "NV.C07.invId_reuse", "NV.C07.cache_transparent_across_reuse"]
@@ -493,7 +594,8 @@ class C07(Prop):
     technique = ("Lean 4 proof (binary search + inherit recursion vs. reference resolver, cache invariant by induction over "
                  "histories, offset sums along inherit chains, round trip of the compressed runtime function table incl. its "
                  "256-entry overflow branch, permutation invariance of the re-sort after load_binary, argument normalisation) + translator: flag bits / origins / cache size / NAME_MASK / NAME_NO_CODE from a probe, "
-                 "function_visible, the cache hash of apply_low and the flag tests of find_function from the clang AST, with "
+                 "function_visible, the cache hash of apply_low, the flag tests of find_function, the search loop of find_func_entry "
+                 "and the literals of compress_function_tables from the clang AST, with "
                  "bridging lemmas + three-way correspondence real driver / model-BUILT tables and model-COMPRESSED tables vs the "
                  "dumped real ones / specification on the abstract graph")
     level_text = ("Lean 4 theorems about an executable model of src/apply.c (find_function, function_visible, the apply cache, "
@@ -511,7 +613,8 @@ class C07(Prop):
                   "correspondence is differential (generated inheritance graphs and call histories, wide programs around the "
                   "255-entry limit of the compressed index only as boundary cases); 16-bit truncation of function indices is not "
                   "modelled (tables have < 65536 slots)")
-    rule = ("cases = corpus + boundary list + seeded random inheritance graphs (2-7 programs, depth <= 4, up to 3 inherits per "
+    rule = ("cases = corpus + boundary list + seeded random inheritance graphs (2-7 programs, some without any function or with "
+            "only private / static functions, depth <= 4, up to 3 inherits per "
             "program with private/static/public/protected modifiers, overriding, prototypes before and after inherits, "
             "`::f` / `A::f` / local calls, function pointers, functionals `(: f() :)` / `(: ::f() :)` and anonymous functions evaluated in "
             "place, by ANOTHER object (directly or as map_array / filter_array callbacks), or stored and evaluated later by another "
@@ -522,7 +625,8 @@ class C07(Prop):
             "such file), heart_beat ticks, cache clears and forced slot collisions; one case in five saves its programs with "
             "#pragma save_binary and RELOADS everything from the binaries in the middle of the history with the function-name strings "
             "re-created in a random address order; boundary: wide programs around the 255-entry limit of the compressed table, "
-            "binary reloads under rotations / a reversal / a 3-cycle / twice; every case is run on the real driver, by the model "
+            "binary reloads under rotations / a reversal / a 3-cycle / twice, function-less inherits at every position among 2-4 "
+            "inherits; every case is run on the real driver, by the model "
             "(tables BUILT and COMPRESSED by the model must equal the dumped real ones, before and after a reload) and by the "
             "specification on the abstract graph; a case is non-trivial when at least one call ran a body")
     not_covered = ["the construction of the function tables (copy_functions, overload_function, define_new_function, epilog, "
@@ -553,7 +657,7 @@ class C07(Prop):
 
     def gen_extra(self, ctx, bdir):
         return (gen_function_visible(bdir) + "\n" + gen_apply_hash(bdir) + "\n" + gen_find_masks(bdir) + "\n"
-                + gen_compress_consts(bdir))
+                + gen_compress_consts(bdir) + "\n" + gen_find_func_entry_loop(bdir))
 
     # ---- implementation side ---------------------------------------------------------------
     def prepare(self, ctx):
@@ -724,6 +828,21 @@ class C07(Prop):
         # (repaired defect: corpus/C07/compress-overflow-260.case)
         for N in (254, 255, 256, 257, 300):
             mk("compress-wide-%d" % N, self.wide_case(N))
+        # inherits that define ZERO functions (variables only) at every position among 2-4 inherits: such an inherit shares
+        # its function_index_offset with its successor, and find_func_entry's search over the inherit list has to pick the
+        # right one for every omitted slot; also an inherit with only private / static functions
+        base = ["prog p0 d:-:f0:- d:-:f1:Lf0", "prog p1 d:-:f2:- d:static:f3:Lf2", "prog p2 d:private:f4:- d:static:f5:Lf4",
+                "prog p3 v:private", "prog p4"]
+        A, Bq, Cq, Ev, Z = "p0", "p1", "p2", "p3", "p4"
+        shapes = [[Ev, A], [A, Ev], [A, Ev, Bq], [Ev, A, Bq], [A, Bq, Ev], [A, Ev, Z, Bq], [Ev, Z, A, Bq], [A, Cq, Ev, Bq], [Z, Ev],
+                  [A, Ev, Ev]]
+        for k, shp in enumerate(shapes):
+            lc = [f for f in ("f0", "f1") if A in shp] + [f for f in ("f2", "f3") if Bq in shp]
+            top = "prog p5 " + " ".join("i:-:%s" % q for q in shp) + " d:-:f6:" + ("+".join("L" + f for f in lc) or "-")
+            mk("empty-inherit-%d" % k, base + [top, "prog p6 i:-:p5 d:-:f7:Lf6",
+                                              "names f0 f1 f2 f3 f4 f5 f6 f7 nosuch", "ld ot p5", "ld ou p6", "dump ot ou"]
+               + ["call %s %s %s" % (o, ob, f) for ob in ("ot", "ou") for f in ("f0", "f1", "f2", "f3", "f4", "f6", "f7")
+                  for o in ("co", "drv")])
         # programs saved with #pragma save_binary and RELOADED from the binary while their function names live at other
         # addresses: sort_function_table re-sorts the table; rotations (long cycles), a reversal, a 3-cycle, the identity
         fns = ["f%d" % i for i in range(6)]
@@ -757,7 +876,7 @@ class C07(Prop):
                "call co o3 nosuch", "call co o3 g0"]
         return [p0, p1, p2, p3, names] + seq
 
-    def gen_graph(self, rng):
+    def gen_graph(self, rng, allow_empty=True):
         n = rng.weighted([(2, 2), (3, 4), (4, 5), (5, 4), (6, 2), (7, 1)])
         g = {}
         order = []
@@ -787,7 +906,11 @@ class C07(Prop):
             order.append(P.name)
             vis = visible_names(g, P.name)
             fnum = lambda f: 99 if f == "heart_beat" else 98 if f == "create" else int(f[1:])   # these may call the others, never the reverse
-            ndef = rng.range(1, min(4, len(fpool)))
+            # one program in six defines NO function at all (variables only, possibly only prototypes): as an inherit it
+            # contributes no runtime slot and shares its function_index_offset with the next inherit; one in eight has only
+            # private / static functions
+            ndef = 0 if (allow_empty and n > 1 and rng.chance(1, 6)) else rng.range(1, min(4, len(fpool)))
+            only_hidden = rng.chance(1, 8)
             mine = sorted(rng.shuffle(fpool)[:ndef], key=fnum)
             for fn in mine:
                 if rng.chance(1, 12):
@@ -823,7 +946,9 @@ class C07(Prop):
                 # an earlier call): the evaluating frame's offsets have nothing to do with the creator's
                 if rng.chance(1, 4):
                     calls.insert(rng.range(0, len(calls)), "N")
-                P.items.append(("d", rng.weighted([("-", 6), ("static", 3), ("private", 2), ("protected", 1), ("public", 1)]), fn, calls))
+                dm = rng.weighted([("static", 1), ("private", 1)]) if only_hidden else \
+                    rng.weighted([("-", 6), ("static", 3), ("private", 2), ("protected", 1), ("public", 1)])
+                P.items.append(("d", dm, fn, calls))
                 vis = visible_names(g, P.name)
             if rng.chance(1, 8):
                 fn = rng.choice(fpool)
@@ -835,7 +960,13 @@ class C07(Prop):
         return g, order, fpool
 
     def gen_case(self, rng, cid):
-        g, order, fpool = self.gen_graph(rng)
+        # one case in five saves its programs as binaries and reloads everything in the middle of the history, with the
+        # function names re-created in a random address order.  Those cases have no function-less programs: saving / loading
+        # the binary of a program without any function makes locate_out / locate_in (binaries.c) do pointer arithmetic on
+        # a NULL area pointer, which UBSan reports (`pointer index expression ... overflowed`) - save_binary's subject (C17),
+        # noted in notes/C07.md, not a dispatch question
+        savebin = rng.chance(1, 5)
+        g, order, fpool = self.gen_graph(rng, allow_empty=not savebin)
         lines = [g[n].line() for n in order]
         extra = ["nosuch", "f9"]
         lines.append("names " + " ".join(fpool + extra + [x for x in ("heart_beat", "create") if x not in fpool]))
@@ -849,9 +980,6 @@ class C07(Prop):
             objs.append(oid)
             lines.append("ld %s %s" % (oid, p))
         lines.append("dump " + " ".join(objs))
-        # one case in five saves its programs as binaries and reloads everything in the middle of the history, with the
-        # function names re-created in a random address order
-        savebin = rng.chance(1, 5)
         reload_at = -1
         if savebin:
             lines.insert(0, "savebin")
